@@ -6,8 +6,8 @@ import corpus, gen_data
 RULE = ("(molecule, acyclic single bond between heavy atoms) pairs from corpus components (quick 90 molecules, thorough 2500) and a "
         "generated family (esters, amides, ethers, thioethers, phosphonates, boronic acids, N-N / N-O / S-halogen / O-halogen bonds): "
         "the two fragments are built by deleting the other side's atoms (index map under the generator's control, radicals closed with "
-        "the repository's own add_hydrogens_to_radicals; molecules that already carry a radical are skipped, the closing step would saturate it) and handed to merge() as two compounds with one boundary each [mode A], and "
-        "each fragment alone with its boundary [mode B: completion by an expansion rule], and the two fragments together with spectator compounds (water, benzene) in every position of the set [mode C].  Oracle (RDKit): mode A reconstructs the "
+        "the repository's own add_hydrogens_to_radicals; for every other cut the fragments are handed over as SMILES strings with translated boundary indices, as build_compounds does, first in a merge with a bond and then alone; molecules that already carry a radical are skipped, the closing step would saturate it) and handed to merge() as two compounds with one boundary each [mode A], and "
+        "each fragment alone with its boundary [mode B: completion by an expansion rule], and the two fragments together with spectator compounds (water, benzene, triethylamine, dichloromethane; up to three kept spectators, adjacent and apart) in every position of the set [mode C].  Oracle (RDKit): mode A reconstructs the "
         "original (canonical SMILES ignoring stereo) unless a restriction rule (no bond) is reported; in every mode the product is a valid "
         "molecule, carbons are conserved, heavy atoms = fragments + compounds named by the reported expansion rules.  Correspondence: "
         "the merged molecule's atom list and bond multiset vs Model/Merge.merge_two_mols, and the reported merge / expansion rule vs "
@@ -46,6 +46,8 @@ FAMILY = ["CCOC(C)=O", "CC(=O)NC", "CCOCC", "CSC", "CC(=O)SC", "CP(=O)(OC)OC", "
           "CC(=O)OC(C)=O", "c1ccccc1OC", "CC(O)CO", "NCC(=O)O", "CS(=O)(=O)Cl", "C[Si](C)(C)Cl", "C[Mg]Br", "CC(C)=NO", "CCN=C=O", "OCCN", "CC#CC", "C=CC",
           "CCBr", "CC(=O)Cl", "c1ccccc1C(=O)OC", "COC(=O)OC", "CNC(=O)OC", "CC(=O)N(C)C", "CSSC", "COO", "CN=NC",
           # hydrogens that stay in the molecular graph (isotope labels): atom count != heavy-atom count
+          # cuts at an atom that keeps an explicit hydrogen count in its fragment ([nH], [NH2+], [SH](=O)=O)
+          "Cn1cccc1", "CC(=O)n1cccc1", "Cn1ccnc1", "C[NH+](C)C", "CS(C)(=O)=O", "Cn1c2ccccc2cc1", "CCn1cccc1",
           "[2H]c1ccc(C(=O)OCC)cc1", "[2H]C([2H])([2H])OC(C)=O", "[2H]OCC", "CC([2H])([2H])OC", "[3H]CC(=O)NC", "[2H]N(C)C(C)=O"]
 
 
@@ -86,9 +88,23 @@ def frag(m, keep, b):
     return fm, idx[b]
 
 
+def as_arg(fm, idx, as_str):
+    """a compound argument for CompoundSet.add_compound: the fragment molecule itself, or -- as build_compounds does in the pipeline --
+    its SMILES string with the boundary index translated to the atom order of that string"""
+    from rdkit import Chem
+    if not as_str:
+        return Chem.Mol(fm), idx
+    smi = Chem.MolToSmiles(fm)
+    order = list(fm.GetPropsAsDict(True, True)["_smilesAtomOutputOrder"])
+    return smi, order.index(idx)
+
+
 def heavy(m):
     c = collections.Counter(a.GetSymbol() for a in m.GetAtoms() if a.GetAtomicNum() > 1)
     return dict(c)
+
+
+SPECT = {"b": "c1ccccc1", "t": "CCN(CC)CC", "d": "ClCCl"}
 
 
 def run(ctx):
@@ -155,6 +171,8 @@ def run(ctx):
                 if fa is None or fb is None:
                     ctx.count("cuts", "fragment_not_sanitisable")
                     continue
+                as_str = (smi in FAMILY) or rng.random() < 0.5        # this cut hands its fragments over as SMILES strings (first with a bond, then alone)
+                ctx.count("cuts", "fragments_as_smiles_strings" if as_str else "fragments_as_molecules")
                 # ---- mode A: two fragments
                 for order in ((fa, ia, v, fb, ib, u),) if rng.random() < 0.5 else ((fb, ib, u, fa, ia, v),):
                     f1, i1, n1, f2, i2, n2 = order
@@ -163,8 +181,9 @@ def run(ctx):
                     ctx.evaluations += 1
                     try:
                         cs = CompoundSet()
-                        c1 = cs.add_compound(Chem.Mol(f1), src_mol=m); c1.add_boundary(i1, neighbor_index=n1)
-                        c2 = cs.add_compound(Chem.Mol(f2), src_mol=m); c2.add_boundary(i2, neighbor_index=n2)
+                        a1, j1 = as_arg(f1, i1, as_str); a2, j2 = as_arg(f2, i2, as_str)
+                        c1 = cs.add_compound(a1, src_mol=m); c1.add_boundary(j1, neighbor_index=n1)
+                        c2 = cs.add_compound(a2, src_mol=m); c2.add_boundary(j2, neighbor_index=n2)
                         res = mg.merge(cs)
                     except Exception as e:
                         ctx.fail("merge-raised", case, {"error": "%s: %s" % (type(e).__name__, str(e)[:160])})
@@ -201,7 +220,9 @@ def run(ctx):
                 # ---- mode C: the same two fragments with spectator compounds (water = removed by a compound rule, benzene = kept
                 # and concatenated) in every position of the compound set
                 if rng.random() < (0.5 if ctx.quick() else 0.3):
-                    layouts = [["w", 1, 2], [1, "w", 2], [1, 2, "w"], ["w", "b", 1, 2], [1, "b", "w", 2], ["b", 1, 2]]
+                    layouts = [["w", 1, 2], [1, "w", 2], [1, 2, "w"], ["w", "b", 1, 2], [1, "b", "w", 2], ["b", 1, 2],
+                               # two and three spectators that are kept, next to each other and apart
+                               [1, 2, "t", "d"], ["t", "d", 1, 2], [1, "t", "d", 2], ["t", 1, "d", 2], ["b", "t", "d", 1, 2], [1, 2, "d", "b", "t"]]
                     lay = rng.choice(layouts)
                     case = {"smiles": smi, "bond": [u, v], "mode": "two-fragments+spectators", "layout": lay}
                     calls.clear()
@@ -211,8 +232,8 @@ def run(ctx):
                         for x in lay:
                             if x == "w":
                                 cs.add_compound("O", src_mol="O")
-                            elif x == "b":
-                                cs.add_compound("c1ccccc1", src_mol="c1ccccc1")
+                            elif x in SPECT:
+                                cs.add_compound(SPECT[x], src_mol=SPECT[x])
                             elif x == 1:
                                 c1 = cs.add_compound(Chem.Mol(fa), src_mol=m); c1.add_boundary(ia, neighbor_index=v)
                             else:
@@ -222,12 +243,13 @@ def run(ctx):
                         ctx.nontrivial.add((smi, u, v, "C", json.dumps(lay)))
                         ctx.count("spectators", "|".join(str(x) for x in lay))
                         want = collections.Counter(heavy(m))
-                        if "b" in lay:
-                            want.update({"C": 6})
+                        for x in lay:
+                            if x in SPECT:
+                                want.update(heavy(Chem.MolFromSmiles(SPECT[x])))
                         if dict(want) != heavy(res.mol):
                             ctx.fail("atoms-not-conserved", case, {"rules": names, "expected": dict(want), "got": heavy(res.mol)})
                         elif not any(n in restriction for n in names):
-                            exp = nostereo(smi + (".c1ccccc1" if "b" in lay else ""))
+                            exp = nostereo(".".join([smi] + [SPECT[x] for x in lay if x in SPECT]))
                             if nostereo(res.mol) != exp:
                                 ctx.fail("original-not-reconstructed", case, {"rules": names, "expected": exp, "got": nostereo(res.mol)})
                     except Exception as e:
@@ -239,7 +261,8 @@ def run(ctx):
                     ctx.evaluations += 1
                     try:
                         cs = CompoundSet()
-                        c1 = cs.add_compound(Chem.Mol(f1), src_mol=m); c1.add_boundary(i1, neighbor_index=n1)
+                        a1, j1 = as_arg(f1, i1, as_str)
+                        c1 = cs.add_compound(a1, src_mol=m); c1.add_boundary(j1, neighbor_index=n1)
                         res = mg.merge(cs)
                     except Exception as e:
                         ctx.fail("merge-raised", case, {"error": "%s: %s" % (type(e).__name__, str(e)[:160])})
